@@ -592,6 +592,32 @@ func c16Locks(r *core.Run, p *core.Program) {
 			return an.Atoms(c.Common().Args[1])["call:(*os.File).Seek#0"] && wh != nil && wh.Sign() == 0
 		}},
 	})
+	// the in-memory mark does not depend on the record being on disk already: a block marked trusted while its
+	// write is still queued must carry the mark into the record written later (writeOne copies rec.trusted)
+	if sf != nil {
+		okMem, why := false, "setBlockFlag does not set the in-memory trusted mark"
+		an.Instrs(sf, func(i ssa.Instruction) {
+			st, ok := i.(*ssa.Store)
+			if !ok {
+				return
+			}
+			fa, ok := st.Addr.(*ssa.FieldAddr)
+			if !ok {
+				return
+			}
+			if f, _ := an.FieldOf(fa); f != "lib/chain.oneBl.trusted" || an.Expr(st.Val) != "true" {
+				return
+			}
+			okMem, why = true, ""
+			for _, dc := range an.DomConds(st.Block()) {
+				if !strings.Contains(dc.Cond, "param#2") {
+					okMem = false
+					why = "the in-memory trusted mark is set only under the additional condition " + dc.Cond + ": a block marked while its write is queued loses the mark"
+				}
+			}
+		})
+		r.Check(okMem, rule, "flag-update/memory-mark-unconditional", p.Pos(sf.Pos()), "the in-memory mark depends on the flag only, not on the record's position", why)
+	}
 	// and the position remembered is the current one: Seek(0, 1)
 	okRem := false
 	if sf != nil {
